@@ -127,7 +127,7 @@ class OldSeq:
         return self._items[n]
 
 
-class Falsy(NoLen):
+class FalsyIter(NoLen):
     """an iterable that is false although it yields items (a lazy cursor that has not fetched anything yet)"""
 
     def __bool__(self):
@@ -168,7 +168,7 @@ def _deque(items):
 
 
 CARRIERS = {"tuple": tuple, "userlist": _userlist, "bag": Bag, "nolen": NoLen, "oldseq": OldSeq, "deque": _deque,
-            "falsy": Falsy, "lazylen": LazyLen, "nobool": NoBool}
+            "falsy": FalsyIter, "lazylen": LazyLen, "nobool": NoBool}
 
 
 def make_exc(c):
